@@ -85,7 +85,12 @@ async fn startup_udp<const N: usize>(config: &ServerConfig<SslConfig>, user_mana
         return Ok(());
     }
     if config.mode.enable_udp() {
-        let (key, identity_keys) = config_password_to_keys(&config.password).map_err(|e| anyhow!(e))?;
+        let (key, identity_keys) = if config.cipher.is_aead_2022() {
+            config_password_to_keys(&config.password).map_err(|e| anyhow!(e))?
+        } else {
+            // a legacy cipher derives its key from an ordinary password, on UDP as on TCP
+            (octo_squirrel::protocol::shadowsocks::aead::openssl_bytes_to_key(config.password.as_bytes()), Vec::with_capacity(0))
+        };
         let context = Context::new(Mode::Server, Some(user_manager.clone()), &key, &identity_keys);
         let codec = udp::new_codec::<N>(config, context)?;
         let inbound = UdpSocket::bind(format!("{}:{}", config.host, config.port)).await?;
